@@ -373,6 +373,8 @@ where
             return;
         }
 
+        #[cfg(feature = "verif_hooks")]
+        crate::verif::hit(crate::verif::Event::TdMerge);
         // TODO: use sort_by_cached_key once stable
         let mut x: Vec<(f64, Centroid)> = self
             .centroids
@@ -396,6 +398,8 @@ where
         for next in x.drain(1..) {
             let q = q_0 + (current.count + next.count) / s;
             if q <= q_limit {
+                #[cfg(feature = "verif_hooks")]
+                crate::verif::hit(crate::verif::Event::TdFuse);
                 current = current.fuse(&next);
             } else {
                 q_0 += current.count / s;
@@ -431,6 +435,8 @@ where
         // left tail?
         let c_first = &self.centroids[0];
         if limit <= c_first.count * 0.5 {
+            #[cfg(feature = "verif_hooks")]
+            crate::verif::hit(crate::verif::Event::TdQuantileLeft);
             let t = limit / (0.5 * c_first.count);
             return Self::interpolate(self.min, c_first.mean(), t);
         }
@@ -439,6 +445,8 @@ where
         for (i, c) in self.centroids.iter().enumerate() {
             if cum + c.count * 0.5 >= limit {
                 // default case
+                #[cfg(feature = "verif_hooks")]
+                crate::verif::hit(crate::verif::Event::TdQuantileInterior);
                 debug_assert!(i > 0);
                 let c_last = &self.centroids[i - 1];
                 cum -= 0.5 * c_last.count;
@@ -450,6 +458,8 @@ where
         }
 
         // right tail
+        #[cfg(feature = "verif_hooks")]
+        crate::verif::hit(crate::verif::Event::TdQuantileRight);
         let c_last = &self.centroids[self.centroids.len() - 1];
         cum -= 0.5 * c_last.count;
         let delta = s - 0.5 * c_last.count;
@@ -463,6 +473,8 @@ where
             return 0.;
         }
         if x < self.min {
+            #[cfg(feature = "verif_hooks")]
+            crate::verif::hit(crate::verif::Event::TdCdfBelowMin);
             return 0.;
         }
 
@@ -474,6 +486,8 @@ where
         for c in &self.centroids {
             let current_cum = cum + 0.5 * c.count;
             if x < c.mean() {
+                #[cfg(feature = "verif_hooks")]
+                crate::verif::hit(crate::verif::Event::TdCdfInterior);
                 let delta = c.mean() - last_mean;
                 let t = (x - last_mean) / delta;
                 return Self::interpolate(last_cum, current_cum, t) / s;
@@ -484,10 +498,14 @@ where
         }
 
         if x < self.max {
+            #[cfg(feature = "verif_hooks")]
+            crate::verif::hit(crate::verif::Event::TdCdfRightTail);
             let delta = self.max - last_mean;
             let t = (x - last_mean) / delta;
             Self::interpolate(last_cum, s, t) / s
         } else {
+            #[cfg(feature = "verif_hooks")]
+            crate::verif::hit(crate::verif::Event::TdCdfAtOrAboveMax);
             1.
         }
     }
@@ -797,6 +815,18 @@ where
     /// Get the maximum number of centroids to be stored in the backlog before starting a merge.
     pub fn max_backlog_size(&self) -> usize {
         self.inner.borrow().max_backlog_size
+    }
+
+    /// Verification hook: `(mean, weight)` of every centroid after compression.
+    #[cfg(feature = "verif_hooks")]
+    pub fn verif_centroids(&self) -> Vec<(f64, f64)> {
+        self.inner.borrow_mut().merge();
+        self.inner
+            .borrow()
+            .centroids
+            .iter()
+            .map(|c| (c.mean(), c.count))
+            .collect()
     }
 
     /// Check whether the digest has not received any positives weights yet.
